@@ -71,11 +71,14 @@ type program struct {
 	autoname bool
 	dedup    bool
 	program  *loader.Program
+	hidden   []hiddenFile
 }
 
 func (p *plugins) Load(paths []string) (Program, error) {
+	hidden := hideDerived(paths)
 	loaded, err := load(paths...)
 	if err != nil {
+		restoreDerived(hidden)
 		return nil, err
 	}
 	return &program{
@@ -83,6 +86,7 @@ func (p *plugins) Load(paths []string) (Program, error) {
 		autoname: p.autoname,
 		dedup:    p.dedup,
 		program:  loaded,
+		hidden:   hidden,
 	}, nil
 }
 
@@ -266,9 +270,11 @@ func (pg *program) Generate() error {
 	// })
 	for i := range pkgInfos {
 		if err := pg.generatePackage(pkgInfos[i]); err != nil {
+			restoreDerived(pg.hidden)
 			return err
 		}
 	}
+	discardDerived(pg.hidden)
 	return nil
 }
 
